@@ -3,6 +3,7 @@
 package geom
 
 func init() {
+	vfHarnesses["C09_distance_shapes"] = vfhC09DistanceShapes
 	vfHarnesses["C09_intersects_shapes"] = vfhC09IntersectsShapes
 }
 
@@ -65,5 +66,54 @@ func vfhC09IntersectsShapes() {
 	vfAssert(ok && d2 == d, "Distance is symmetric")
 	ed, ok := a.Envelope().Distance(b.Envelope())
 	vfAssert(ok && d >= ed, "Distance is never smaller than the distance between the envelopes")
+	vfReach("end")
+}
+
+var vfC09Apart = [][2]string{
+	{"LINESTRING(0 0,100 0)", "MULTIPOINT((0 5),(-10 0),(100 1))"},
+	{"LINESTRING(0 0,100 0)", "MULTILINESTRING((0 5,0 9),(-10 0,-20 0),(100 1,100 7))"},
+	{"LINESTRING(0 0,50 0,100 10)", "GEOMETRYCOLLECTION(POLYGON((-20 -20,-10 -20,-10 -10,-20 -10,-20 -20)),POINT(0 6),POINT(99 12))"},
+	{"LINESTRING(5 10,5 1)", "LINESTRING(0 0,10 0,10 -5)"},
+	{"LINESTRING(2 2,1 1)", "LINESTRING(0 0,4 0)"},
+	{"POLYGON((0 0,8 0,8 8,0 8,0 0),(2 2,6 2,6 6,2 6,2 2))", "POLYGON((3 3,5 3,4 5,3 3))"},
+	{"POLYGON((0 0,4 0,4 4,0 4,0 0))", "MULTIPOLYGON(((10 0,14 0,14 4,10 4,10 0)),((5 5,9 5,9 9,5 9,5 5)),((-9 -9,-5 -9,-5 -5,-9 -9)))"},
+	{"MULTIPOINT(0 0,50 50,100 0)", "MULTIPOINT(10 10,52 49,90 -9,0 -20)"},
+	{"POINT(3 4)", "LINESTRING(0 0,0 10,10 10)"},
+	{"MULTILINESTRING((0 0,10 0),(0 20,10 20),(0 40,10 40),(0 60,10 60),(0 80,10 80))", "MULTILINESTRING((30 1,40 1),(30 21,40 21),(12 79,40 79),(30 61,40 61),(30 41,40 41))"},
+}
+
+// The value of Distance on concrete operands that do not intersect (several
+// parts, nearest feature late in R-tree order, nearest point at the far end of a
+// long segment or strictly inside a segment): NO pair of real locations p in a,
+// q in b is closer than the reported distance (a universal query over two
+// symbolic locations, exact arithmetic, relative slack 2^-30 for the rounding
+// of the reported value). That the distance is attained is not decided here
+// (the native side has no way to confirm a four-dimensional existential).
+func vfhC09DistanceShapes() {
+	k := vfInt("case", 0, len(vfC09Apart)-1)
+	a, err := UnmarshalWKT(vfC09Apart[k][0])
+	vfAssert(err == nil, "operand a parses")
+	b, err := UnmarshalWKT(vfC09Apart[k][1])
+	vfAssert(err == nil, "operand b parses")
+	if vfBool("swap") {
+		a, b = b, a
+	}
+	d, ok := Distance(a, b)
+	vfAssert(ok && d > 0, "defined and positive for disjoint operands")
+	const slack = 1.0 / (1 << 30)
+	lo := d * d * (1 - slack) // concrete
+	dist2 := func(p, q XY) float64 {
+		dx, dy := vfSpecSub(p.X, q.X), vfSpecSub(p.Y, q.Y)
+		return vfSpecSub(vfSpecMul(dx, dx), vfSpecSub(0, vfSpecMul(dy, dy)))
+	}
+	p := XY{vfLattice("p.x", 7), vfLattice("p.y", 7)}
+	q := XY{vfLattice("q.x", 7), vfLattice("q.y", 7)}
+	inA, _ := vfLocIn(a, p)
+	inB, _ := vfLocIn(b, q)
+	vfAssert(vfOr(!vfAnd(inA, inB), dist2(p, q) >= lo), "no location of a is closer to a location of b than Distance(a,b)")
+	// upper bound: the first control points of the two operands are that far apart at most
+	sa, sb := a.DumpCoordinates(), b.DumpCoordinates()
+	a0, b0 := sa.GetXY(0), sb.GetXY(0)
+	vfAssert(d*d <= ((a0.X-b0.X)*(a0.X-b0.X)+(a0.Y-b0.Y)*(a0.Y-b0.Y))*(1+slack), "Distance is at most the distance between two control points")
 	vfReach("end")
 }
